@@ -105,7 +105,21 @@ func timedHistory(caseNo int, rng *rand.Rand) (ka uint16, steps []Step, horizon 
 		}
 		// back to active, within the sleep duration
 		g = gap(dD)
-		steps = append(steps, advStep(g), snStep(snref.Connect("cl", ka, false, false)))
+		// The CONNECT of a sleeping client does not open a new MQTT connection: whatever keep-alive
+		// it announces, the broker still applies the one of the original CONNECT (which the client
+		// goes on honouring in this history).
+		ka2 := ka
+		switch rng.Intn(6) {
+		case 0:
+			ka2 = 65535
+		case 1:
+			ka2 = 10 * ka
+		case 2:
+			if ka > 1 {
+				ka2 = ka / 2
+			}
+		}
+		steps = append(steps, advStep(g), snStep(snref.Connect("cl", ka2, false, false)))
 		total += g
 	}
 	// the history's horizon: the last obligation is still met at this instant
